@@ -512,6 +512,7 @@ package rewriter
 //@   requires YRCtx(r) && call != nil && len(call.Args) >= 1 && children != nil && Ready(children)
 //@   ensures[following] fresh(following) && BLen(following) == 0 && BOwner(following) == kindDelay && Ready(following)
 //@   ensures[children] BlockInv(children) && ATBL(children) && EndsOK(children) && BOwner(children) == old(BOwner(children))
+//@   ensures[closes-with-yield] BLen(children) > 0 && BKind(children, BLen(children) - 1) == kindYield
 //@   modifies BLen(children), BKLen(children), BStmt(children), BKind(children), BChecked(children), BFrozen(children)
 
 //@ func (r *yieldRewriter) rewriteBlockStmt(body, kind) (res)
